@@ -5,9 +5,15 @@ specs, their encoding for the Lean driver, and an *independent* Python oracle of
 spec (JSON-able, self-contained):
   {"k": "E", "lm": lm}                              fieldcompare.mesh.Mesh from a logical mesh (fcv.meshgen)
   {"k": "P", "lm": lm}                              PermutedMesh view: sort(MeshFields(Mesh)).domain
+      optional "tol_on": "base" (default: tolerances set on the wrapped Mesh before sorting) | "view" (set on the
+      permuted view returned by sort — a PermutedMesh of PermutedMeshes) | "inner-view" (set on the point-sorted
+      view before it is wrapped by the cell-sorted view)
   {"k": "R", "ext": [e0,e1,e2], "ords": [[..],[..],[..]]}          RectilinearMesh
   {"k": "S", "ext": [e0,e1,e2], "dim": d, "points": [[..], ..]}    StructuredMesh
   {"k": "I", "ext": [e0,e1,e2], "origin": [..], "spacing": [..], "basis": [[..]*3] | None}   ImageMesh
+      basis None = constructed WITHOUT `basis=` (standard basis); optional "via": "vti" = the ImageMesh obtained by
+      reading an ascii .vti file with these attributes (Direction attribute iff basis is not None) through the
+      public reader (fcv.history_p5d)
   optional "tol": [abs_tol, rel_tol]  -> set_tolerances(abs_tol=…, rel_tol=…) after construction
 """
 from __future__ import annotations
@@ -29,14 +35,31 @@ def build(spec):
         obj = meshgen.to_fc(dict(spec["lm"], pf=[], cf=[])).domain
     elif k == "P":
         base = meshgen.to_fc(dict(spec["lm"], pf=[], cf=[]))
-        if spec.get("tol") is not None:
-            base.domain.set_tolerances(abs_tol=float(spec["tol"][0]), rel_tol=float(spec["tol"][1]))
+        on = spec.get("tol_on", "base") if spec.get("tol") is not None else None
+        tol = dict(abs_tol=float(spec["tol"][0]), rel_tol=float(spec["tol"][1])) if on else {}
+        if on == "base":            # the wrapped explicit mesh carries the tolerances, the views inherit them
+            base.domain.set_tolerances(**tol)
+            return sort(base).domain
+        if on == "view":            # set_tolerances on the (outermost) permuted view itself
+            view = sort(base).domain
+            view.set_tolerances(**tol)
+            return view
+        if on == "inner-view":      # set on the point-sorted view, which the cell-sorted view then wraps
+            from fieldcompare.mesh import sort_points, sort_cells, strip_orphan_points
+            inner = sort_points(strip_orphan_points(base))
+            inner.domain.set_tolerances(**tol)
+            return sort_cells(inner).domain
+        if on is not None:
+            raise ValueError(on)
         return sort(base).domain
     elif k == "R":
         obj = RectilinearMesh(tuple(spec["ext"]), tuple(np.array(o, dtype=np.float64) for o in spec["ords"]))
     elif k == "S":
         pts = np.array(spec["points"], dtype=np.float64).reshape(len(spec["points"]), spec["dim"])
         obj = StructuredMesh(tuple(spec["ext"]), pts)
+    elif k == "I" and spec.get("via") == "vti":
+        from . import history_p5d
+        obj = history_p5d.read_vti_image(spec)
     elif k == "I":
         basis = None if spec.get("basis") is None else np.array(spec["basis"], dtype=np.float64)
         obj = ImageMesh(tuple(spec["ext"]), tuple(float(x) for x in spec["origin"]),
